@@ -23,8 +23,10 @@ macro_rules! payload {
 }
 payload!(B1);
 payload!(B2);
-payload!(E1);
-payload!(E2);
+/// Entity events use the same payload types as broadcasts: the framework keys broadcast and entity-event tables by the
+/// same `TypeId`, so a mix-up between the two families can only show when a type is used in both.
+pub type E1 = B1;
+pub type E2 = B2;
 payload!(P1);
 
 #[derive(ReactComponent, PartialEq, Debug)]
